@@ -272,6 +272,16 @@ impl Aml for UserEntry {
     }
 }
 
+/// look at an object while it is still being built: serialise it and take its byte sum, discarding both
+/// (a serialiser may refuse a half-built object; that is not an observation)
+fn peek(a: &dyn Aml) {
+    let _ = std::panic::catch_unwind(std::panic::AssertUnwindSafe(|| {
+        let mut v = Vec::new();
+        a.to_aml_bytes(&mut v);
+        acpi_tables::u8sum(a)
+    }));
+}
+
 fn en3<T: Copy>(v: u64, xs: &[T]) -> T {
     xs[v as usize]
 }
@@ -279,6 +289,9 @@ fn en3<T: Copy>(v: u64, xs: &[T]) -> T {
 pub fn build(op: &Op, hs: &mut Handles) -> Ent {
     let n = |i: usize| -> u64 { op.n.get(i).copied().unwrap_or(0) };
     let blob = |i: usize| -> &[u8] { op.b.get(i).map(|v| v.as_slice()).unwrap_or(&[]) };
+    // entries with `&mut self` mutators can be serialised between two mutator calls; a third of the
+    // builder programs do so after every call (serialise, then mutate, then serialise again)
+    let peeking = op.o.len() % 3 == 2 && op.o.len() <= 64;
     match op.kind.as_str() {
         "lapic" => Ent::Lapic(madt::ProcessorLocalApic::new(
             n(0) as u8, n(1) as u8,
@@ -375,6 +388,7 @@ pub fn build(op: &Op, hs: &mut Handles) -> Ent {
                     "sete" => l.set_entry_value(v[0] as usize, v[1] as usize, v[2] as u16),
                     _ => panic!("loc opt"),
                 }
+                if peeking { peek(&l); }
             }
             Ent::Loc(l)
         }
@@ -387,6 +401,7 @@ pub fn build(op: &Op, hs: &mut Handles) -> Ent {
             for (nm, v) in &op.o {
                 assert!(nm == "h");
                 m.add_smbios_handle(v[0] as u16);
+                if peeking { peek(&m); }
             }
             Ent::Msc(m)
         }
@@ -408,6 +423,7 @@ pub fn build(op: &Op, hs: &mut Handles) -> Ent {
                     }
                     _ => panic!("proc opt"),
                 };
+                if peeking { peek(&p); }
             }
             Ent::Proc(p)
         }
@@ -485,6 +501,7 @@ pub fn build(op: &Op, hs: &mut Handles) -> Ent {
                     "target" => c.add_target((v[0] as u32).to_le_bytes()),
                     _ => panic!("cfmws opt"),
                 }
+                if peeking { peek(&c); }
             }
             Ent::Cfmws(c)
         }
@@ -612,6 +629,7 @@ pub fn build(op: &Op, hs: &mut Handles) -> Ent {
                     _ => rqsc::ResourceID::VendorSpecific(t[3] as u8, op.b.get(i).cloned().unwrap_or_default()),
                 };
                 q.add_resource(rqsc::ResourceStructure::new(if t[0] == 0 { rqsc::ResourceType::Cache } else { rqsc::ResourceType::Memory }, t[1] as u16, id));
+                if op.s.len() % 3 == 2 && op.s.len() <= 64 { peek(&q); }
             }
             Ent::QosCtrl(q)
         }
@@ -871,6 +889,11 @@ pub fn run_tbl(toks: &[&str]) -> String {
     let mut hs = Handles::default();
     out.push(format!("-,-,{},-", observe(&tab, first)));
     let mut dead = false;
+    // a twin: a second instance of the same table type fed the same program, call by call interleaved
+    // with the first — the two images must be identical (no state shared between instances, C14)
+    let mut twin = Tab::new(tname, oid, otab, orev, &ctor);
+    let mut hs2 = Handles::default();
+    let mut twin_ok = true;
     for op in &ops {
         // built twice: once to serialise alone, once to add.  The standalone serialisation is observed
         // on its own: an entry that serialises alone although the add call refuses it is reported as
@@ -898,6 +921,17 @@ pub fn run_tbl(toks: &[&str]) -> String {
             let raw = if in_table_only { ser(tab.aml())[before..].to_vec() } else { raw };
             (raw, h, refs)
         }));
+        if r.is_ok() && twin_ok {
+            let r2 = std::panic::catch_unwind(std::panic::AssertUnwindSafe(|| {
+                let e = build(op, &mut hs2);
+                hs2.resolved.clear();
+                twin.add(e, &mut hs2)
+            }));
+            match (&r, r2) {
+                (Ok((_, h, _)), Ok(h2)) => { if *h != h2 { twin_ok = false; } }
+                _ => { twin_ok = false; }
+            }
+        }
         match r {
             Ok((raw, h, refs)) => {
                 let hstr = h.map(|v| v.to_string()).unwrap_or_else(|| "-".to_string());
@@ -913,6 +947,10 @@ pub fn run_tbl(toks: &[&str]) -> String {
                 break;
             }
         }
+    }
+    if !dead {
+        if twin_ok && ser(twin.aml()) != ser(tab.aml()) { twin_ok = false; }
+        out.push(format!("twin={}", if twin_ok { "same" } else { "DIFF" }));
     }
     if dead {
         out.push("img=-".to_string());
